@@ -167,8 +167,14 @@ func newWorld(r *simkit.Run, cfg cbConfig) *cbWorld {
 			w.stepTime = append(w.stepTime, w.now())
 			w.obs = append(w.obs, "")
 		}
-		s := w.observe()
 		prev := w.obs[w.sim.Seq-1]
+		s := prev
+		// While a parked task holds the breaker's lock exclusively the state is in the middle of a critical section,
+		// and an implementation whose String() takes the lock would make this observer wait for a task that cannot
+		// run: the last reading stands until that lock is free again.
+		if w.sim.WriteLocksHeld() == 0 {
+			s = w.observe()
+		}
 		w.obs[w.sim.Seq] = s
 		if s != prev {
 			w.sim.NoteStr("state", s)
